@@ -19,13 +19,18 @@ ASSUMPTIONS = [
     "theorems cover the modelled entry points only (listed in Properties/C04*.v); net/mail, encoding/xml, archive/zip, tar, gzip "
     "decoders and the three resolvers' totality are exercised by the malformed stream with recover and watchdog as supporting "
     "evidence, not proved",
+    "pypi.ParseWheelName: strings.IndexFunc(tag, !unicode.IsDigit) is a parameter of the model of which the totality theorem assumes "
+    "only that a returned index lies within the tag (C04_wheel_name_total); the correspondence runs the ASCII instance and skips "
+    "build tags with non-ASCII bytes",
     "stack depth: recursion-depth bounds of the models are theorems; that Go's stack accommodates them is observed, not proved",
 ]
 MANIFEST = dict(
     category="proof",
     text=("Totality theorems (no Panic outcome, fuel suffices) for the modelled entry points — SemVer-family Parse and the further "
           "parsers listed in Properties/C04*.v — over ALL byte strings, with the operator/byte tables regenerated from the source so "
-          "that an index past a table's real length is a failed obligation; every exported entry point (semver, pypi, maven, schema, "
+          "that an index past a table's real length is a failed obligation; pypi.SdistVersion and pypi.ParseWheelName with what they return "
+          "(C04_sdist_version_total/_ok/_err, C04_wheel_name_total/_ok, Properties/C04_pypifiles.v) compared value by value with Go; "
+          "every exported entry point (semver, pypi, maven, schema, "
           "the three resolvers) is additionally driven with malformed inputs under recover and a watchdog, and a panic or hang is "
           "reported with the input."),
     note=("Partial: standard-library decoders (net/mail, encoding/xml, archive/*), resolver totality and physical stack limits are "
@@ -293,6 +298,55 @@ def graph_text(rng, noise=None):
             rows.append(ind + rng.choice([b"$", b"$@", b"@", nm, nm + b"@" + rq + b" 1 2", b"x: ", b"$x", nm + b"@" + rq + b" ERROR: ",
                                           b"\xe2\x94\x94\xe2\x94\x80 " + nm + b"@" + rq + b" 1"]))
     return b"\n".join(rows) + rng.choice([b"\n", b""])
+
+
+def pypi_file_names(ctx):
+    """pypi.SdistVersion and pypi.ParseWheelName against their model (coq/Pypi/Files.v; theorems C04_sdist_version_*,
+    C04_wheel_name_* in Properties/C04_pypifiles.v): names built from the pieces of real file names, names that end in the
+    separator, several extensions, mutated names"""
+    rng = ctx.rng
+    pk = [b"pkg", b"my-pkg", b"my_pkg", b"My.Pkg", b"a", b"a-b-c", b"", b"-", b"x--y", b"zope.interface", b"a_b", b"\xc3\xa9"]
+    canon = [b"pkg", b"my-pkg", b"a", b"a-b-c", b"", b"-", b"x-y", b"zope-interface", b"a-b", b"a-b-"]
+    ver = [b"1.0", b"2.0b1", b"", b"1", b"1.0-2", b"-", b"1.0.tar", b".", b"1.0.post1", b"0", b"v1"]
+    ext = [b".tar.gz", b".zip", b".tgz", b".tar.bz2", b"", b".tar", b".gz", b".tar.tar", b".", b"/x.zip", b".whl"]
+    sd = []
+    for _ in range(ctx.scale(1500, 40000)):
+        nm = rng.choice(pk)
+        fnm = nm + rng.choice([b"-", b"-", b"-", b"_", b"", b"--"]) + rng.choice(ver) + rng.choice(ext)
+        if rng.random() < 0.2:
+            fnm = byte_mutate(rng, fnm, 2)
+        import re
+        cn = re.sub(rb"[-_.]+", b"-", nm).lower() if rng.random() < 0.6 else rng.choice(canon)
+        sd.append(sx([cn, fnm]))
+    got, want = ctx.correspond("sdist_version", sd)
+    ctx.count("sdist_version:ok", sum(1 for g in got if g.startswith('("ok"')))
+    ctx.count("sdist_version:err", sum(1 for g in got if g.startswith('("err"')))
+    for c, g in zip(sd, got):
+        if g.startswith('("ok"'):
+            ctx.nontriv(("sdist", c))
+    tags = [b"py3", b"py2.py3", b"cp39", b"cp39.cp310", b"none", b"abi3", b"any", b"manylinux1_x86_64.manylinux2010_x86_64", b"", b".", b"a..b"]
+    btag = [b"1", b"12a", b"0", b"007", b"a1", b"", b"99999999999999999999", b"9223372036854775807", b"9223372036854775808", b"1_2",
+            b"+1", b"1\xd9\xa1", b"\xd9\xa1", b"1-"]
+    wn = []
+    for _ in range(ctx.scale(1500, 40000)):
+        parts = [rng.choice(pk), rng.choice(ver)]
+        if rng.random() < 0.5:
+            parts.append(rng.choice(btag))
+        parts += [rng.choice(tags), rng.choice(tags), rng.choice(tags)]
+        if rng.random() < 0.15:
+            parts = parts[:rng.randrange(0, len(parts))] + parts[rng.randrange(0, len(parts)):]
+        name = b"-".join(parts) + rng.choice([b".whl", b".whl", b".whl", b".whl", b"", b".WHL", b".wh", b"whl"])
+        if rng.random() < 0.15:
+            name = byte_mutate(rng, name, 2)
+        wn.append(sx([name]))
+    wn += [sx([x]) for x in (b".whl", b"whl", b"", b"-----.whl", b"----.whl", b"a-b-c-d-e-f.whl", b"a-b-1x-d-e-f.whl")]
+    got, want = ctx.correspond("wheel_name", wn)
+    ctx.count("wheel_name:ok", sum(1 for g in got if g.startswith('("ok"')))
+    ctx.count("wheel_name:err", sum(1 for g in got if g.startswith('("err"')))
+    ctx.count("wheel_name:outside the model (non-ASCII build tag)", sum(1 for w in want if "oom" in w))
+    for c, g in zip(wn, got):
+        if g.startswith('("ok"'):
+            ctx.nontriv(("wheel", c))
 
 
 def byte_mutate(rng, b, k=4):
@@ -568,6 +622,7 @@ def run(ctx):
             if nd <= 20:
                 ctx.divergence("total:parse(family)", a, cx, cy)
     ctx.count("corr:total:parse(family)", len(args))
+    pypi_file_names(ctx)
 
 
 def oracle_only(ctx):
